@@ -269,7 +269,7 @@ def getter(ctx):
     valid = gen.rand_valid(rng, spec.n)
     fu = gen.pick(rng, [None, "A/m", "T"])
     vdims = gen.rand_vdims(rng, nvdim)
-    f = df.Field(mesh, nvdim=nvdim, value=arr.copy(), vdims=vdims, valid=valid.copy(), unit=fu)
+    f = gen.via_history(None, df.Field(mesh, nvdim=nvdim, value=arr.copy(), vdims=vdims, valid=valid.copy(), unit=fu))
     info = {"nvdim": nvdim, "ndim": spec.nd, "n": spec.n, "style": style}
     ctx.sample({"kind": "getter", "nvdim": nvdim, "style": style, **spec.describe()})
 
